@@ -238,13 +238,28 @@ def runExt (cmd rest : String) : Option String :=
     | ["jsonacc", l, kinds] => do
       pure (if jsonAccepts Gen.IoReaders.jsonMembersChecked (← flag? l) (strList kinds) then "1" else "0")
     | _ => none
+  -- `voxcache D2,V3,R,…` : assignments of fresh `_data` / `_values` versions and grid reads on a VoxelNeuron that starts at
+  -- versions (1, 1), with the setter → clear facts of the CURRENT voxel.py  →  for every R the versions the grid was built from
+  | "voxcache" => do
+    let ops ← (strList rest).mapM fun t =>
+      match t.toList with
+      | 'D' :: n => (String.ofList n).toNat?.map VoxOp.setData
+      | 'V' :: n => (String.ofList n).toNat?.map VoxOp.setValues
+      | ['R'] => some VoxOp.read
+      | _ => none
+    let f := Gen.IoReaders.voxFacts
+    let (_, out) := ops.foldl (fun (acc : VoxSt × List String) op =>
+      match op with
+      | .read => let r := voxRead f acc.1; (r.2, acc.2 ++ [s!"{r.1.1}:{r.1.2}"])
+      | o => (voxStep f acc.1 o, acc.2)) ((⟨1, 1, 1, 1, none⟩ : VoxSt), [])
+    pure (",".intercalate out)
   | _ => none
 
 end Ext
 
 def run (cmd : String) (rest : String) : Option String :=
   match cmd with
-  | "select" | "info" | "nrrdhdr" | "cols" | "jsonkeys" | "h5meta" => runExt cmd rest
+  | "select" | "info" | "nrrdhdr" | "cols" | "jsonkeys" | "h5meta" | "voxcache" => runExt cmd rest
   -- table → bytes navis should write, and the parent column a reader should give back
   | "enc_skel" => match rest.splitOn "|" with
     | [rad, rows] => do
